@@ -139,7 +139,8 @@ class BufSeq:
 
     def getslice(self, it, lo, hi, node):
         s, n = it.norm_slice(self.n, lo, hi)
-        if simp(s) != 0:
+        ss = simp(s)
+        if not (isinstance(ss, int) and ss == 0):
             raise Unsupported('list slice with non-zero start')
         return BufSeq(self.run, n, self.cells, self.starts, self.lens, self.kind, self.writable, self.label + '[:]')
 
